@@ -127,6 +127,7 @@ func (r *reader) readMapStream() (wire.MapItemList, error) {
 	}
 
 	items := borrowLazyMapItemList()
+	verifPool("lazymap", "get", items, items.readerAt == nil)
 	items.ktype = mh.KeyType
 	items.vtype = mh.ValueType
 	items.count = int32(mh.Length)
@@ -152,6 +153,7 @@ func (r *reader) readListStream() (wire.ValueList, error) {
 	}
 
 	items := borrowLazyValueList()
+	verifPool("lazylist", "get", items, items.readerAt == nil)
 	items.count = int32(lh.Length)
 	items.typ = lh.Type
 	items.readerAt = r.or.reader
@@ -176,6 +178,7 @@ func (r *reader) readSetStream() (wire.ValueList, error) {
 	}
 
 	items := borrowLazyValueList()
+	verifPool("lazylist", "get", items, items.readerAt == nil)
 	items.count = int32(sh.Length)
 	items.typ = sh.Type
 	items.readerAt = r.or.reader
